@@ -7,6 +7,7 @@ spec (in addition to the sbx fields):
   'ref_prelude': source executed in the reference namespace at setup (when op 1 cannot be run by the
                  reference because it does not terminate), ops may be {'op': 'idle', 'seconds': x}
 """
+import os
 import random
 import sys
 import threading
@@ -30,6 +31,10 @@ class ThrRun(sbx.SbxRun):
                                tick=sc.get('tick', 0.001), forced=sc.get('forced'), params=sc.get('params'))
         self.sched.activate()
         self.sandbox.allowed_time = spec.get('allowed_time', 3)
+        if spec.get('sandbox_threaded'):
+            # what environments do (student.threaded = True): executions default to threaded, and a student file
+            # imported by student code is executed in yet another interruptable thread with its own limit
+            self.sandbox.threaded = True
         if spec.get('instruction_level'):
             import pedal.sandbox.sandbox as S
             import pedal.sandbox.timeout as T
@@ -157,6 +162,7 @@ class ThrRun(sbx.SbxRun):
                           'probe': dict(s.probe),
                           'thread_states': [(t.index, t.state, t.events, t.blocked_on) for t in s.threads],
                           'thread_born': {t.index: t.op_born for t in s.threads},
+                          'thread_sent_site': {t.index: t.sent_site for t in s.threads if t.sent_site},
                           'thread_done_at': {t.index: (t.done_at - 1_000_000.0 if t.done_at else None) for t in s.threads}}}
 
 
